@@ -238,9 +238,28 @@ def modeAnswer (evs : List Mode.Ev) : Json :=
     ("out", Json.mkObj (as.map fun a => (toString a, match s.out a with | none => Json.null | some l => toksJson l))),
     ("spec", Json.mkObj (as.map fun a => (toString a, toksJson (Mode.writesOf a evs))))]
 
+def parseModeEv (j : Json) : Option Mode.Ev :=
+  match asArr j with
+  | [tag, a] =>
+    match asStr tag with
+    | "save" => some (.save (asNat a)) | "set" => some (.set (asNat a))
+    | "restore" => some (.restore (asNat a)) | "read" => some (.read (asNat a))
+    | "swapNC" => some (.swapNC (asNat a)) | "restoreNC" => some (.restoreNC (asNat a))
+    | _ => none
+  | [tag, a, n] =>
+    if asStr tag = "write" then some (.write (asNat a) (asNat n))
+    else if asStr tag = "getlive" then some (.getlive (asNat a) ((n.getBool?).toOption.getD false))
+    else none
+  | _ => none
+
 def handle (j : Json) : Json :=
   match jstr j "op" with
-  | "streammode" => modeAnswer (Mode.flatten none (parseModeForest (jarr j "forest")))
+  | "streammode" =>
+    if jhas j "forest" then modeAnswer (Mode.flatten none (parseModeForest (jarr j "forest")))
+    else
+      match (jarr j "evs").mapM parseModeEv with
+      | none => Driver.err "bad ev"
+      | some evs => (modeAnswer evs).setObjVal! "ncOnly" (Json.bool (Mode.ncOnly evs))
   | "streamfwd" => fwdAnswer (Fwd.flatten none (parseFwdForest (jarr j "forest")))
   | "py" =>
     match actionRes j, bodyOps j with
